@@ -444,6 +444,46 @@ func checkCtorSkeleton(c *Ctx, r *Rec, info *types.Info, fd *ast.FuncDecl, kind 
 			}
 		}
 	}
+	// a kind that the dispatch recognises by `K != nil` must hold the argument itself: the clone
+	// idiom append([]T(nil), x...) turns an empty non-nil Go array into nil
+	for _, final := range finals {
+		for _, cl := range final.Body.List {
+			cc := cl.(*ast.CaseClause)
+			for _, g := range cc.List {
+				be, ok := ast.Unparen(g).(*ast.BinaryExpr)
+				if !ok || be.Op != token.NEQ {
+					continue
+				}
+				ko := identObj(info, be.X)
+				if tv, isNil := info.Types[be.Y]; !(isNil && tv.IsNil()) || ko == nil || !kindVars[ko] {
+					continue
+				}
+				if _, isSlice := ko.Type().Underlying().(*types.Slice); !isSlice {
+					continue
+				}
+				ast.Inspect(argLoop, func(y ast.Node) bool {
+					as, ok := y.(*ast.AssignStmt)
+					if !ok || len(as.Lhs) != 1 || len(as.Rhs) != 1 || identObj(info, as.Lhs[0]) != ko {
+						return true
+					}
+					call, ok := ast.Unparen(as.Rhs[0]).(*ast.CallExpr)
+					if !ok || !isBuiltinCall(info, call, "append") || len(call.Args) == 0 {
+						return true
+					}
+					first := ast.Unparen(call.Args[0])
+					if conv, ok := first.(*ast.CallExpr); ok && len(conv.Args) == 1 {
+						if tv, isT := info.Types[conv.Fun]; isT && tv.IsType() {
+							first = ast.Unparen(conv.Args[0])
+						}
+					}
+					if tv, ok := info.Types[first]; ok && tv.IsNil() {
+						viol = append(viol, fmt.Sprintf("%s is recognised by `%s` but is assigned a copy made with %s, which is nil for an empty Go array: %s[...](empty Go array) is no longer taken for an array argument", ko.Name(), exprStr(be), exprStr(call), kind))
+					}
+					return true
+				})
+			}
+		}
+	}
 	// an argument kind that is sorted out of the arguments but never looked at afterwards is ignored
 	after := map[types.Object]bool{}
 	for _, st := range fd.Body.List {
